@@ -169,6 +169,11 @@ focus("long",
 focus("strings",
       dict(Enabled=["Module", "Fn", "Str", "Char"], MaxNodes=3, StrLits="<- StrLits_bytes", CharLits="<- CharLits_bytes"))
 
+# --- long string literals: an escape sequence (simple, \\xHH, \\u{..}, a raw multi-byte character) next to every column where a
+#     writer of source text might wrap a line (64 .. 256), at the end of the literal and followed by more text
+focus("longstr",
+      dict(Enabled=["Module", "Fn", "Str"], MaxNodes=3, StrLits="<- StrLits_long"))
+
 # --- a form the documents do not show but generation 1 accepts: the address operator inside |x|
 focus("undoc",
       dict(Enabled=["Module", "Fn", "Len", "Idx", "Mem", "Int"], MaxNodes=5, MaxSteps=1, LenAddrs=nset([1, 2])))
